@@ -55,6 +55,24 @@ impl Act {
             _ => return None,
         })
     }
+    /// inverse of the Debug rendering, e.g. "Gv(1, 2.0)" (used by replay commands)
+    pub fn parse_debug(s: &str) -> Option<Act> {
+        let (name, rest) = s.split_once('(')?;
+        let args: Vec<&str> = rest.trim_end_matches(')').split(',').map(|x| x.trim()).collect();
+        Some(match name {
+            "Rate" => Act::Rate(args[0].parse().ok()?),
+            "Fperiod" => Act::Fperiod(args[0].parse().ok()?),
+            "Volume" => Act::Volume(args[0].parse().ok()?),
+            "Msd" => Act::Msd(args[0].parse().ok()?, args[1].parse().ok()?),
+            "Gv" => Act::Gv(args[0].parse().ok()?, args[1].parse().ok()?),
+            "Speed" => Act::Speed(args[0].parse().ok()?),
+            "Align" => Act::Align(args[0] == "true"),
+            "Alpha" => Act::Alpha(args[0].parse().ok()?),
+            "Beta" => Act::Beta(args[0].parse().ok()?),
+            "HalfTone" => Act::HalfTone(args[0].parse().ok()?),
+            _ => return None,
+        })
+    }
     pub fn apply(&self, c: &mut Condition) {
         match *self {
             Act::Rate(v) => c.set_sampling_frequency(v),
